@@ -61,6 +61,17 @@ Theorem c02_reject_fresh_not_type0 s i fmt cid i1 fuel :
   read_message (S fuel) s i = Err E_FRESH.
 Proof. exact (reject_fresh_not_type0 s i fmt cid i1 fuel). Qed.
 
+(* non-vacuity of the three rejections: rule-breaking traces of the reference chunker (first chunk
+   of a 300-byte message, then (a) a type-0 chunk, (b) a type-1 chunk announcing 301 bytes on the
+   same chunk stream; (c) a fresh chunk stream 9 starting with type 3) end in exactly these errors,
+   with no message delivered *)
+Example c02_reject_nonvacuous :
+  let m := mkmsg 5 0 9 1 (repeat 1 300) in
+  read_all 10 rs0 [ref_chunk [mkstep 5 1 0 0; mkstep 5 1 0 0] [m]] [] = ([], E_EXISTS) /\
+  read_all 10 rs0 [ref_chunk [mkstep 5 1 0 0; mkstep 5 1 1 1] [m]] [] = ([], E_SIZE) /\
+  read_all 10 rs0 [ref_chunk [mkstep 9 1 3 0] [mkmsg 9 0 9 1 [1; 2; 3]]] [] = ([], E_FRESH).
+Proof. vm_compute. repeat split. Qed.
+
 (* The recorded finding: a legal plan (type 0 at 1000 ms, then type 1 with delta 0x1000000 on
    chunk stream 3) whose second message the reader reports at 16777216 instead of 16778216. *)
 Theorem c02_ext_delta_refuted :
